@@ -43,6 +43,7 @@ type RunOpts struct {
 	KeepTrace bool
 	KeepLog   bool
 	MaxWall   time.Duration
+	noMeta    bool
 }
 
 // NewExploreTrace draws configuration and genesis for world n of a seed.
@@ -97,6 +98,12 @@ func RunTrace(tr *Trace, explore bool, baseDir string, opts RunOpts) (res *World
 			step = &tr.Blocks[h-1]
 		}
 		w.RunBlock(h, step)
+	}
+	if hookWorld != nil && opts.noMeta {
+		hookWorld(w)
+	}
+	if tr.Cfg.Metamorphic && !opts.noMeta && len(w.Viol) == 0 && !w.TimedOut && w.Blocks > 0 {
+		w.metamorphicFailedTxRemoval(baseDir, opts)
 	}
 	res.Blocks = w.Blocks
 	res.TxTotal, res.TxOK = w.TxTotal, w.TxOK
@@ -223,3 +230,111 @@ func WorldDir(n int) string {
 	}
 	return filepath.Join(base, fmt.Sprintf("verif-%d", os.Getpid()), fmt.Sprintf("w%d", n))
 }
+
+// metamorphicFailedTxRemoval: "a failed transaction has no effect" implies that the same history with
+// every failed transaction removed (the successful ones byte for byte, same absences, evidence and
+// times) gives every remaining transaction the same result and the same validator updates. The second
+// pass runs the full machinery again (its own model and oracles).
+func (w *World) metamorphicFailedTxRemoval(baseDir string, opts RunOpts) {
+	// variant A: every failed tx removed; variant B: a subset of the failed txs removed (then also the
+	// results of the remaining failed txs must be unchanged: a failed tx must not make a later one fail)
+	if w.metamorphicPass(baseDir, opts, "A") {
+		return
+	}
+	w.metamorphicPass(baseDir, opts, "B")
+}
+
+func (w *World) metamorphicPass(baseDir string, opts RunOpts, variant string) bool {
+	L := w.leader()
+	tr2 := w.Tr.Clone()
+	tr2.Cfg.Metamorphic = false
+	tr2.Cfg.Followers = 0
+	tr2.Cfg.Noisy, tr2.Cfg.NoisyLeader = false, false
+	tr2.Blocks = nil
+	type kept struct {
+		h   int64
+		idx int
+		dig string
+	}
+	var keep []kept
+	removed := 0
+	var hist int
+	for hi := range w.Tr.Blocks {
+		h := int64(hi + 1)
+		res := L.Results[h]
+		if res == nil {
+			break
+		}
+		b := w.Tr.Blocks[hi]
+		nb := BlockStep{DtMs: b.DtMs, Proposer: b.Proposer, Absent: b.Absent, SkewMs: b.SkewMs, Evidence: b.Evidence}
+		for i, d := range res.DeliverTxs {
+			if hist+i >= len(w.History) {
+				break
+			}
+			drop := d.Code != 0
+			if drop && variant == "B" {
+				hh := sha256.Sum256([]byte(fmt.Sprintf("meta-%d-%d-%d-%d", w.Tr.Seed, w.Tr.World, h, i)))
+				drop = hh[0]&1 == 0
+			}
+			if !drop {
+				nb.Txs = append(nb.Txs, Intent{Kind: "bytes", Raw: hex.EncodeToString(w.History[hist+i])})
+				keep = append(keep, kept{h, i, digestTx(d)})
+			} else {
+				removed++
+			}
+		}
+		hist += len(res.DeliverTxs)
+		tr2.Blocks = append(tr2.Blocks, nb)
+	}
+	if removed == 0 || len(keep) == 0 {
+		return false
+	}
+	w.Probes.Hit("metamorphic.second-pass." + variant)
+	w.Probes.Add("metamorphic.failed-removed", removed)
+	o2 := opts
+	o2.noMeta = true
+	o2.KeepLog = false
+	r2, w2 := runTraceWorld(tr2, false, baseDir+"-meta"+variant, o2)
+	if w2 == nil {
+		return false
+	}
+	for _, v := range r2.Violations {
+		w.violate("metamorphic."+v.Check, append([]string{"C05"}, v.Props...), v.Height, "with failed transactions removed (variant %s): %s", variant, v.Detail)
+		return true
+	}
+	k := 0
+	for hi := range tr2.Blocks {
+		h := int64(hi + 1)
+		res2 := w2.Results[h]
+		if res2 == nil {
+			break
+		}
+		a, b := L.Results[h], res2
+		for _, d := range b.DeliverTxs {
+			if k >= len(keep) || keep[k].h != h {
+				break
+			}
+			if digestTx(d) != keep[k].dig {
+				w.violate("metamorphic.failed-tx-effect", []string{"C05"}, h, "tx %d of block %d answers %s in the full history and %s when failed transactions before it are removed (variant %s; log %q)", keep[k].idx, h, keep[k].dig, digestTx(d), variant, d.Log)
+				return true
+			}
+			k++
+		}
+		if digestValUpdates(a.EndBlock.ValidatorUpdates) != digestValUpdates(b.EndBlock.ValidatorUpdates) {
+			w.violate("metamorphic.valupdates", []string{"C05"}, h, "validator updates at %d differ when failed transactions are removed: %s vs %s", h, digestValUpdates(a.EndBlock.ValidatorUpdates), digestValUpdates(b.EndBlock.ValidatorUpdates))
+			return true
+		}
+	}
+	return false
+}
+
+// runTraceWorld runs a trace and hands back the leader's results (used by the metamorphic pass).
+func runTraceWorld(tr *Trace, explore bool, baseDir string, opts RunOpts) (*WorldResult, *Replica) {
+	var keepL *Replica
+	hookWorld = func(w *World) { keepL = &Replica{Results: w.leader().Results} }
+	defer func() { hookWorld = nil }()
+	res := RunTrace(tr, explore, baseDir, opts)
+	return res, keepL
+}
+
+var hookWorld func(w *World)
